@@ -229,6 +229,26 @@ def label_src(x, p):
                 other == nm, Not(names[0] == gotos[0]))))
 
 
+def api_names(x, p):
+    """PICO-8 API and callback names - taken from a list written from the
+    manual (ref/p8api.py), not from picotool's own table - are reserved:
+    luamin returns each unchanged and never hands one out."""
+    from ref import p8api
+    names = [n.encode() for n in p8api.API_NAMES]
+    i = x.int('i', 0, len(names) - 1)
+    name = names[x.conc(i)]                # one path per name
+    f = F()
+    x.check('an API name is in the reserved set',
+            name in F.PRESERVED_NAMES, info=name.decode())
+    x.check('an API name is returned unchanged', f.get_short_name(name) == name,
+            info=name.decode())
+    # a few ordinary identifiers first, then the API name again
+    for k in range(3):
+        f.get_short_name(b'var%d' % k)
+    x.check('an API name stays unchanged later on',
+            f.get_short_name(name) == name, info=name.decode())
+
+
 def keepfile(x, p):
     """read_names_file: one name per line, blank lines and lines whose first
     non-blank character is '#' ignored, surrounding blanks stripped."""
@@ -266,6 +286,7 @@ HARNESSES = [
                       dict(Q, mode='keep_file', entries=2, L=2, nkeep=2,
                            B=20000, _budget=1800),
                       dict(Q, mode='keep_all', entries=2, L=3, B=20000)]),
+    Harness('api_names', api_names, quick=[Q]),
     Harness('label_src', label_src, quick=[dict(Q, L=1, other='q')],
             thorough=[dict(Q, L=1), dict(Q, L=2, _budget=1800)]),
     Harness('label', label, quick=[dict(Q, L=1), dict(Q, L=2)],
